@@ -4,7 +4,7 @@ from collections import Counter
 
 TIE = "corr:zipslicer"
 TIE_THEOREM = ("Relic.Model.Zip vs lib/zipslicer (Read, ReadZipTar+Dump, GetTotalSize, GetLocalHeader, GetDataDescriptor, "
-               "WriteDirectory, GetOriginalDirectory, AddFile/NewFile/WriteDirectory rewrite), differential on every run")
+               "WriteDirectory, GetOriginalDirectory, AddFile/NewFile/WriteDirectory rewrite, source directory after Mangle), differential on every run")
 RULE = ("archives from a harness-owned raw ZIP writer: fixed corner grid (stored/deflated x empty/1 byte/23 bytes x descriptor "
         "none/16/24 x with/without signature x ZIP64 end records forced or not, alone and followed by a second member) plus seeded random "
         "archives (0-6 members, names 0-13 bytes, sizes 0-300, general-purpose flags 0/2/4/6/8/0x800, extra fields before/after the ZIP64 one, "
@@ -14,7 +14,12 @@ RULE = ("archives from a harness-owned raw ZIP writer: fixed corner grid (stored
         "+ relic single pass (ZipToTar/ReadZipTar) vs Lean model (tie), relic vs archive/zip on archives Spec.Zip calls valid (property), "
         "archive/zip vs Spec.Zip (spec validation), CPython zipfile in the thorough tier. Every second archive is rewritten by relic "
         "(delete mask, new files stored/deflated with/without descriptor, forceZip64), the result is read back (round 2), rewritten again "
-        "Mangler-style (second signing) and read back (round 3). Non-trivial = distinct op on which the model's Read succeeds with >= 1 member "
+        "Mangler-style (second signing) and read back (round 3); the read-back judges name, content, extra field (without ZIP64 records) and "
+        "file comment of every kept and added member as archive/zip sees them, also when model and implementation disagree on the rewrite. "
+        "Targeted archives: members with extra AND comment / extra only / comment only moved by deleting an earlier member, new members with "
+        "extra fields, ZIP64 records in moved entries. srcdir ops: the SOURCE directory is serialised (WriteDirectory, GetOriginalDirectory) "
+        "before and after Mangle (delete a non-last member; per-member steps and the real Directory.Mangle + MakePatch) and must not change. "
+        "Non-trivial = distinct op on which the model's Read succeeds with >= 1 member "
         "or a rewrite that produced an archive.")
 ASSUMPTIONS = ["inflate/deflate and CRC-32 are not modelled: contents and CRCs are compared dynamically between relic, archive/zip (and zipfile)",
                "offsets and sizes below 2^63 (negative int64 never generated); archives a few KiB, so ZIP64 paths are reached by forcing ZIP64 "
@@ -86,9 +91,40 @@ def _sha(x):
     return x if len(x) == 16 and ":" not in x else ("skip" if x == "skip" else "error")
 
 
+def _noz64(h):
+    """an extra field (hex, '-' = empty) without its ZIP64 extended-information records (tag 0x0001), which a writer may add or drop"""
+    b = b"" if h in ("-", "") else bytes.fromhex(h)
+    out, i = b"", 0
+    while i + 4 <= len(b):
+        n = b[i + 2] | b[i + 3] << 8
+        if i + 4 + n > len(b):
+            break
+        if b[i:i + 2] != b"\x01\x00":
+            out += b[i:i + 4 + n]
+        i += 4 + n
+    return (out + b[i:]).hex() or "-"
+
+
+def _exp_entry(e):
+    """'name:sha[:extra:comment]' written by the harness from an independent reader's view of the input"""
+    p = e.split(":")
+    if len(p) >= 4:
+        return "%s:%s:%s:%s" % (p[0], _sha(":".join(p[1:-2])), _noz64(p[-2]), p[-1])
+    return e
+
+
+def _got_entry(r):
+    f = r.split(" ")
+    if len(f) >= 11:
+        return "%s:%s:%s:%s" % (f[0], _sha(f[8]), _noz64(f[9]), f[10])
+    return "%s:%s" % (f[0], f[8])
+
+
 def nontrivial(op, mres, tag):
     if op.split(" ")[1] in ("wd", "wdx"):
         return True
+    if op.split(" ")[1] == "srcdir":
+        return mres.startswith("ok")
     if op.split(" ")[1] == "read":
         return mres.startswith("R ok") and " n=0 " not in mres
     return mres.startswith("ok")
@@ -103,6 +139,8 @@ def branch(op, mres, tag):
         return "wd:" + ("zip64" if "504b0606" in mres else "plain")
     if kind == "wdx":
         return "wdx:" + ("refused" if mres.startswith("err") else "emitted")
+    if kind == "srcdir":
+        return "srcdir:%s:%s" % (f[0] if f[0] == "ok" else " ".join(f[:2]), sv)
     if kind == "many":
         return "many:" + ("zip64" if int(op.split(" ")[2]) + int(op.split(" ")[3]) >= 65535 else "plain")
     if kind == "read":
@@ -146,6 +184,15 @@ def evaluate(op, il, mres, tag, origin, pyline=None):
             out.append(("Relic.Props.C17.write_read_roundtrip_partial", "many-relic-rereads:" + kv.get("relic", "?")[:60], "relic=ok",
                         "relic cannot read back an archive it wrote itself (%s members + %s added)" % tuple(op.split(" ")[2:4])))
         return out
+    if kind == "srcdir":
+        # re-serialising the SOURCE directory after Mangle ran over it (an unmodified directory: the caller never touched it)
+        if core.startswith("ok before ") and " after " in core:
+            before, after = core[len("ok before "):].split(" after ", 1)
+            if before != after:
+                out.append(("Relic.Props.C17.reemit_unmodified", "srcdir-changed-by-mangle", before[:400],
+                            "WriteDirectory / GetOriginalDirectory of the source directory give other bytes after Mangle than before: "
+                            "the entries of the unmodified directory were written through"))
+        return out
     if kind == "rewrite":
         # (a refusal by the guard of fix-F7g is by design: Props/C17_Write rewrite_refuses_iff)
         if t["valid"] and "contig" in t["flags"] and not core.startswith("ok ") and "wd-extratoolong" not in core:
@@ -166,10 +213,12 @@ def evaluate(op, il, mres, tag, origin, pyline=None):
                         "archive written by relic is not a valid ZIP (spec=%s, archive/zip=%s)" % (t["valid"], G[:3])))
             return out
         if origin["exp"] != ["unknown"]:
-            got = ["%s:%s" % (r.split(" ")[0], r.split(" ")[-1]) for r in rows_of(G)]
-            if got != origin["exp"]:
-                out.append(("Relic.Props.C17.write_read_roundtrip_partial", "rewrite-output-content", ",".join(origin["exp"]),
-                            "archive written by relic does not hold the kept and added members: " + ",".join(got)))
+            got = [_got_entry(r) for r in rows_of(G)]
+            want = [_exp_entry(e) for e in origin["exp"]]
+            if got != want:
+                out.append(("Relic.Props.C17.write_read_roundtrip_partial", "rewrite-output-content", ",".join(want),
+                            "archive written by relic does not hold the kept and added members (name, content, extra field without "
+                            "ZIP64 records, file comment, as a standard reader sees them): " + ",".join(got)))
     # rewrite_roundtrip: what relic wrote from a readable contiguous input is again relicReadable, unless an added member is
     # empty with a descriptor (F7a) or the output is the 22-byte empty archive (F7c-tiny)
     if (origin is not None and origin["claim"] and origin.get("readable_in") and origin.get("newsok")
@@ -273,6 +322,13 @@ def evaluate(op, il, mres, tag, origin, pyline=None):
     return out
 
 
+def _report_op(op, origin, cause):
+    """a defect of an archive relic wrote is reported with the rewrite op that produced it: replaying that op reads the output back"""
+    if origin and cause.startswith("rewrite-output") and origin.get("from_op"):
+        return origin["from_op"]
+    return op
+
+
 def known_match(k, cause, flags, origin_flags):
     """ONLY the exact triggers: the identity names the model tag that must be present and the observation it explains."""
     ident = k.get("identity", {})
@@ -339,9 +395,15 @@ def run(ctx):
                 try:
                     for thm, cause, expected, note in evaluate(op, il, mres, tag, origins.get(op), py.get(op)):
                         if not thm.startswith("Relic.SpecZip") and not any(known_match(k, cause, t["flags"], set()) for k in known):
-                            findings.append(R.Finding("counterexample", TIE, thm, op, expected, cause + " :: " + core[:2000], note))
+                            findings.append(R.Finding("counterexample", TIE, thm, _report_op(op, origins.get(op), cause), expected,
+                                                      cause + " :: " + core[:2000], note))
                 except (IndexError, KeyError, ValueError):
                     pass
+                # what the implementation wrote is read back all the same (rounds 2, 3): that is where a wrong archive shows
+                if op.split(" ")[1] == "rewrite" and core.startswith("ok ") and len(core.split(" ")[1]) % 2 == 0:
+                    exp = ex.get("E", "unknown").split(",") if ex.get("E") else []
+                    nxt.append((core.split(" ")[1], {"claim": t["valid"] and "contig" in t["flags"], "flags": t["flags"], "exp": exp,
+                                                     "from": op[:80], "from_op": op}))
                 continue
             oflags = origin["flags"] if origin else set()
             for thm, cause, expected, note in evaluate(op, il, mres, tag, origin, py.get(op)):
@@ -350,7 +412,7 @@ def run(ctx):
                     known_hits.append((kn, op))
                 else:
                     kind = "broken-tie" if thm.startswith("Relic.SpecZip") else "counterexample"
-                    findings.append(R.Finding(kind, TIE, thm, op, expected, cause + " :: " + core[:2000], note))
+                    findings.append(R.Finding(kind, TIE, thm, _report_op(op, origin, cause), expected, cause + " :: " + core[:2000], note))
             if op.split(" ")[1] == "rewrite" and core.startswith("ok "):
                 outhex = core.split(" ")[1]
                 exp = ex.get("E", "unknown").split(",") if ex.get("E") else []
@@ -360,11 +422,15 @@ def run(ctx):
                 newsok = all(not (n[6] == "1" and n[3] == "0") for n in news if len(n) == 7)
                 nxt.append((outhex, {"claim": t["valid"] and "contig" in t["flags"], "flags": t["flags"], "exp": exp, "from": op[:80],
                                      "readable_in": t.get("rdbl") == "1" and t.get("room") == "1", "newsok": newsok}))
+                nxt.append((outhex, {"claim": t["valid"] and "contig" in t["flags"], "flags": t["flags"], "exp": exp, "from": op[:80], "from_op": op}))
         return nxt
 
     if ctx.get("replay_ops") is not None:
         ops = ctx["replay_ops"]
-        do_round(ops, {}, 1)
+        nxt = do_round(ops, {}, 1)
+        if nxt:   # a replayed rewrite op: read back what the implementation wrote, as the rounds of a full run do
+            origins = {"C17 read " + outhex: org for outhex, org in nxt}
+            do_round(list(origins), origins, 2)
     else:
         g = subprocess.run([R.VH, "C17", "gen"], stdout=subprocess.PIPE, stderr=subprocess.PIPE, text=True, env=env)
         if g.returncode != 0:
